@@ -67,8 +67,8 @@ P['C03'] = dict(text='Proof of the tree invariant for the functions that establi
     note='Not under contract (bounded only): WHICH tokens the joiner passes group (their predicates are only proved total and effect-free); termination of the ancestor walk is not proved; flatten() enters get_token_at_offset as a sequence model (its relation to the tree: shape obligation + I4). Trusted: methodology of local invariants, pyvc, z3.', tech=TECH + 'segment-list heap model, lazily materialised elements, interval summaries', ref='5 C03')
 P['C04'] = dict(text='Proof: split and parse consume the same lexer+splitter pass (shape obligations on split, FilterStack.__init__, run), statements keep their text under grouping (C02 obligations), splitter boundary obligations, StripTrailingSemicolonFilter removes only trailing whitespace and semicolons (per-site obligation); the lexer types every str.isspace character as Whitespace (exhaustive over the 29 characters), so the splitter\'s and str.strip\'s notions of blank agree; the scanning path of the lexer stores nothing on the lexer object (separate runs over the same text see the same tokens).' + BND,
     note='Re-splitting a piece (lexing out of context) and the strip/partition arithmetic are bounded only. Trusted: re, str.strip.', tech=TECH + 'shape obligations + bounded stand-in', ref='5 C04')
-P['C06'] = dict(text='Proof of the tree-level clause by per-site SMT obligations over the heap model: on every path of the listed layout routines (strip-whitespace family, spaces-around-operators, reindent split/where/parenthesis/values/process, aligned split/parenthesis/statement) every removed element is whitespace, every value store blanks a whitespace token, every inserted element is a fresh whitespace token (also inside insert_before / insert_after executed in place), and no other token field is written; the identifier-list layout of both indent filters and the CASE layout of the aligned filter are verified on explicit node shapes (arbitrary item classes, texts and filter settings); the three strip_whitespace routines additionally against functional postconditions on explicit shapes (exactly the whitespace in front of commas / behind ( / in front of ) is removed, every other token is the same object in the same order); option validation proved for every option value; filter order and serializer by shape obligations.' + BND,
-    note='Loops are over-approximated (arbitrary element, havoc-ed state, field taint); sibling calls by "may restructure its argument". ReindentFilter._process_case, the two _process_default routines and the _stripws dispatcher are covered by a syntactic inventory + bounded only; shape cases speak about the stated shapes only. Re-lexing the output is regex semantics: bounded only.', tech=TECH + 'per-site obligations over a heap model', ref='5 C06')
+P['C06'] = dict(text='Proof of the tree-level clause by per-site SMT obligations over the heap model: on every path of the listed layout routines (strip-whitespace family, spaces-around-operators, reindent split/where/parenthesis/values/process, aligned split/parenthesis/statement) every removed element is whitespace, every value store blanks a whitespace token, every inserted element is a fresh whitespace token (also inside insert_before / insert_after executed in place), and no other token field is written; the identifier-list layout and the CASE layout of both indent filters are verified on explicit node shapes (arbitrary item classes, texts and filter settings); the three strip_whitespace routines additionally against functional postconditions on explicit shapes (exactly the whitespace in front of commas / behind ( / in front of ) is removed, every other token is the same object in the same order); option validation proved for every option value; filter order and serializer by shape obligations.' + BND,
+    note='Loops are over-approximated (arbitrary element, havoc-ed state, field taint); sibling calls by "may restructure its argument". the two _process_default routines and the _stripws dispatcher are covered by a syntactic inventory + bounded only; shape cases speak about the stated shapes only. Re-lexing the output is regex semantics: bounded only.', tech=TECH + 'per-site obligations over a heap model', ref='5 C06')
 P['C07'] = dict(text='Proof of `raises subset {SQLParseError}` for validate_options over ALL option values (None|bool|int|float incl. inf/nan|str|other), for the lexer, consume, the splitter transition, the three stream filters, get_type, get_parent_name, remove_quotes, the read-only accessors (is_wildcard, get_typecast, get_ordering, Comparison.left/right, get_window, get_parameters given a Parenthesis child, get_alias, get_real_name, get_name, has_alias, _get_first_name, get_identifiers, get_token_at_offset), the neighbour-search helpers, group_tokens, _group_matching (six classes), the nine simple grouping passes, the joiner _group with its ten instantiating passes (closures total on every child and on None) and StripWhitespaceFilter.process (also on a statement without children) (every partial operation on every path), AlignedIndentFilter._process_case on CASE shapes (the closing keyword guaranteed by the grouping is found again); every closer lookup of the CASE layout routines and of get_cases accepts every closer that Case.M_CLOSE admits (cooperating sites); validation dominates formatting; RecursionError obligations of C15.' + BND,
     note='the other tree filters: bounded stand-in (exhaustive 2-fragment soups + random soups x option sets, accessor walk, invalid option values).', tech=TECH + 'exceptional postconditions per function', ref='5 C07')
 P['C08'] = dict(text='Proof: KeywordCaseFilter, IdentifierCaseFilter, TruncateStringFilter are per-token maps (one output per input, same type, value changed only for the target types, truncation formula) for every stream; StripCommentsFilter per-site obligations (thorough tier): only non-hint comments are removed, only fresh whitespace inserted; its closure _get_insert_token returns a whitespace leaf allocated by the call (both tiers).' + BND,
